@@ -53,6 +53,7 @@ EXPECTED_PROBES = [
     "identity_fault_rejected",
     "tsig_not_last_formerr",
     "real_multi_sign_verified_by_reference",
+    "renderer_api_signed_verified_by_reference",
     "net_tampered_reply_not_returned",
     "xfr_tsig_stream_ok",
 ]
@@ -83,8 +84,9 @@ def setup():
     import dns.rcode
 
     _d = dns
-    for mod in (dns.renderer, dns.query, dns.asyncquery):
+    for mod in (dns.query, dns.asyncquery):
         mod.time = VT
+    dns.renderer.time = _TSIGCLOCK  # Renderer.add_tsig / add_multi_tsig read the wall clock themselves
     # message ids the library draws for itself come from the case, not from the OS
     import dns.entropy
 
@@ -126,7 +128,7 @@ def gen_case(seed, tier):
         "nrr": rng.choice([0, 1, 2, 4]),
         "edns": rng.random() < 0.3,
         "qname": rng.choice(["www.example.", "a.b.c.example.org.", "MiXeD.example."]),
-        "scenario": rng.choice(["single", "single", "single", "identity", "structure", "multi", "multi", "real_multi", "net", "xfr"]),
+        "scenario": rng.choice(["single", "single", "single", "identity", "structure", "multi", "multi", "real_multi", "net", "xfr", "renderer"]),
         "skew": rng.choice(["0", "0", "+fudge", "-fudge", "+fudge+1", "-fudge-1", "big"]),
         "flips": "all" if tier == "thorough" and rng.random() < 0.3 else 250,
         "identity": rng.choice(["secret", "keyname_keyring", "keyname_key", "algorithm", "request_mac", "no_request_mac", "tsig_error"]),
@@ -807,7 +809,71 @@ def _scenario_xfr(case, res, log):
     log.add("xfr", alg, n, fault, outs["sync"])
 
 
+def _scenario_renderer(case, res, log):
+    """The low-level dns.renderer.Renderer API signs (add_tsig for one message, add_multi_tsig for a
+    stream): every MAC must be the RFC 8945 HMAC, bound to the request MAC, and the library's own
+    reader must accept the result."""
+    dns = _d
+    import dns.renderer
+    import dns.rdatatype
+    import dns.rdataclass
+
+    key = _key(case)
+    secret = bytes.fromhex(case["secret"])
+    alg, kn = case["alg"], case["keyname"]
+    t0 = case["time"]
+    _set_clock(t0)
+    q = _query(case)
+    qw, req_mac = T.sign_single(secret, kn, alg, q.to_wire(), t0, case["fudge"])
+    bound = case["identity"] != "no_request_mac"
+    rmac = req_mac if bound else b""
+    n = case["nenv"]
+    use_multi = n > 1 or case["unsigned_mask"] % 2 == 1
+    if not use_multi:
+        n = 1
+    other = bytes.fromhex(case["other"]) if False else b""
+    ctx = None
+    vctx = None
+    prior = None
+    qname = dns.name.from_text(case["qname"])
+    tag = f"Renderer.{'add_multi_tsig' if use_multi else 'add_tsig'} alg={alg} envelopes={n} request_mac={'yes' if bound else 'no'}"
+    for i in range(n):
+        _set_clock(t0 + i)
+        r = dns.renderer.Renderer(id=case["qid"], flags=0x8400, max_size=65535)
+        r.add_question(qname, dns.rdatatype.A)
+        for j in range(case["nrr"]):
+            r.add_rrset(dns.renderer.ANSWER, dns.rrset.from_text(qname, 300, "IN", "A", f"10.{i}.{j}.1"))
+        if case["edns"]:
+            r.add_edns(0, 0, 1232)
+        r.write_header()
+        if use_multi:
+            ctx = r.add_multi_tsig(ctx, key.name, key, case["fudge"], case["qid"], 0, other, rmac, key.algorithm)
+        else:
+            r.add_tsig(key.name, key, case["fudge"], case["qid"], 0, other, rmac, key.algorithm)
+        w = r.get_wire()
+        stripped, ff = T.split_tsig(w)
+        if ff is None:
+            raise Violation("C14:tsig-fields", f"{tag}: envelope {i} carries no TSIG")
+        if ff["time"] != t0 + i or ff["fudge"] != case["fudge"] or ff["orig_id"] != case["qid"]:
+            raise Violation("C14:tsig-fields", f"{tag}: envelope {i} TSIG fields time={ff['time']} fudge={ff['fudge']} original id={ff['orig_id']}")
+        if i == 0:
+            want = T.mac_single(secret, kn, alg, stripped, ff["orig_id"], ff["time"], ff["fudge"], ff["error"], ff["other"], rmac or None)
+        else:
+            want = T.mac_subsequent(secret, alg, prior, [], stripped, ff["orig_id"], ff["time"], ff["fudge"])
+        if want != ff["mac"]:
+            raise Violation("C14:mac-differs-from-rfc", f"{tag}: envelope {i} MAC differs from the RFC 8945 HMAC ({'request MAC + message + variables' if i == 0 else 'prior MAC + message + timers'})")
+        prior = ff["mac"]
+        out = _real_verify(w, key, request_mac=rmac, multi=use_multi, ctx=vctx)
+        if out[0] != "ok":
+            raise Violation("C14:own-signature-rejected", f"{tag}: the library's reader rejects envelope {i} signed through the Renderer: {out[1]}")
+        vctx = out[1].tsig_ctx
+    res.probes.inc("renderer_api_signed_verified_by_reference")
+    res.probes.inc("mac_equal_reference")
+    log.add("renderer", alg, n, use_multi, bound)
+
+
 SCENARIOS = {
+    "renderer": _scenario_renderer,
     "single": _scenario_single,
     "identity": _scenario_identity,
     "structure": _scenario_structure,
